@@ -156,6 +156,7 @@ def apply(st, op, check):
             d["op"] = op
             vs.append(viol(kind, sig, d))
     want = None
+    replaced = None
     mutated = None      # (oid, exists) expected in the event stream
     if k == "create":
         path, data = op[1], _data(op[2])
@@ -200,9 +201,11 @@ def apply(st, op, check):
         else:
             want = OK
         got, new_oid = _do(p.rename, oid, dst)
+        replaced = None
         if got == OK and want == OK:
             if t is not None and t is not e:
                 m.dead_oids.append(t["oid"])
+                replaced = t["oid"]
                 del m.t[m.k(dst)]
             moved = {m.k(src): e}
             for q in m.kids(src):
@@ -319,6 +322,10 @@ def apply(st, op, check):
                 bad("event-missing", k, oid=oid, exists=exists, events=[(ev.oid, ev.exists) for ev in evs][:5])
         elif evs and want != OK:
             bad("event-spurious", k, events=[(ev.oid, ev.exists) for ev in evs][:5])
+        if replaced is not None and not st.cfg["oid_is_path"]:
+            # an (empty) folder that was replaced by the rename is gone: the stream must say so for its id
+            if not any(ev.oid == replaced and not ev.exists for ev in evs):
+                bad("event-missing", "rename-replaced-folder", oid=replaced, events=[(ev.oid, ev.exists) for ev in evs][:5])
     return vs
 
 
